@@ -330,7 +330,14 @@ func mutate(t *rapid.T, toks []string) (string, string) {
 	}
 	lastTok := toks[len(toks)-1]
 	endsWithSlash := lastTok == "/" || lastTok == "//"
-	switch m := rapid.IntRange(0, 14).Draw(t, "mutation"); m {
+	switch m := rapid.IntRange(0, 15).Draw(t, "mutation"); m {
+	case 15:
+		// characters that look like nothing but are not white space: byte order mark, zero-width space/joiner, soft hyphen, NUL
+		inv := []string{"\ufeff", "\u200b", "\u200d", "\u00ad", "\x00", "\u2060"}[rapid.IntRange(0, 5).Draw(t, "invisible")]
+		if rapid.Bool().Draw(t, "invisibleFirst") {
+			return inv + join(toks), "invisible character"
+		}
+		return join(toks) + inv, "invisible character"
 	case 0:
 		if br := idxOf(func(s string) bool { return s == "(" || s == ")" || s == "[" || s == "]" }); len(br) > 0 {
 			return join(without(br[rapid.IntRange(0, len(br)-1).Draw(t, "which")])), "unbalanced bracket"
